@@ -614,6 +614,7 @@ func doCheck(cfg tierCfg) int {
 		ncpu = 16
 	}
 	var harnessTrouble []string
+	degradedWhy := ""
 	var found []foundFailure
 	foundMode := map[int]string{}
 	collect := func(s *stats) {
@@ -750,7 +751,17 @@ func doCheck(cfg tierCfg) int {
 			harnessTrouble = append(harnessTrouble, "self-test: results differ between processes and the run could not be exported")
 		}
 	} else if selfLogDiff != nil {
-		harnessTrouble = append(harnessTrouble, fmt.Sprintf("determinism self-test: run %d has equal results but different event logs in different processes (the simulator lost control of a source of nondeterminism)", *selfLogDiff))
+		// equal results, different paths through the code.  If the tree uses a source of
+		// nondeterminism the simulator does not own (clock, random numbers, goroutines of its
+		// own, real sync primitives) that is the explanation, the runs are *degraded* (their
+		// schedules are not a pure function of the seed) and the result oracles still apply;
+		// otherwise the simulator itself lost control of something
+		if why := uncontrolledSources(b); why != "" {
+			degradedWhy = why
+			fmt.Printf("note: event logs of identical seeded runs differ between processes while their results are equal; the tree uses %s, which the simulator does not control: runs are degraded (not exactly replayable), result oracles unaffected\n", why)
+		} else {
+			harnessTrouble = append(harnessTrouble, fmt.Sprintf("determinism self-test: run %d has equal results but different event logs in different processes (the simulator lost control of a source of nondeterminism)", *selfLogDiff))
+		}
 	}
 	fmt.Printf("determinism self-test: %d run indices executed by 3 processes (GOMAXPROCS 1, 4, 16): event-log hashes and results identical: %v\n",
 		selfCompared, selfLogDiff == nil && selfOutDiff == nil)
@@ -888,7 +899,7 @@ func doCheck(cfg tierCfg) int {
 	}
 	confirmed, unconfirmed := 0, 0
 	for i, f := range found {
-		if len(viols) >= 8 {
+		if len(viols) >= 6 {
 			break
 		}
 		var rf map[string]any
@@ -916,6 +927,9 @@ func doCheck(cfg tierCfg) int {
 		}
 		rp := &proc{name: "replay", bin: bin, timeout: 10 * time.Minute, args: []string{"-mode", "replay", "-file", v.replay},
 			env: []string{"GORACE=halt_on_error=1 exitcode=66"}}
+		if bytes.Contains(f.Replay, []byte(`"runs": []`)) || bytes.Contains(f.Replay, []byte(`"runs":[]`)) {
+			rp.args = append(rp.args, "-root", b.rootSerial) // prefix-only replay file
+		}
 		rp.run()
 		if rp.exit != 1 && rp.exit != 66 && len(f.Original) > 2 && string(f.Original) != "null" && foundMode[i] != "burst" {
 			// the in-process minimisation may have relied on state left in the worker process:
@@ -926,7 +940,7 @@ func doCheck(cfg tierCfg) int {
 			op.run()
 			if op.exit == 1 {
 				minOut := filepath.Join(scratch, fmt.Sprintf("min-%d.json", i))
-				mp := &proc{name: "minimise", bin: bin, timeout: 5 * time.Minute, args: []string{"-mode", "minimise", "-file", orig, "-out", minOut, "-seconds", "30"}}
+				mp := &proc{name: "minimise", bin: bin, timeout: 5 * time.Minute, args: []string{"-mode", "minimise", "-file", orig, "-out", minOut, "-seconds", "20"}}
 				mp.run()
 				src := orig
 				if mp.exit == 0 {
@@ -941,6 +955,16 @@ func doCheck(cfg tierCfg) int {
 					os.WriteFile(v.replay, indentJSON(f.Original), 0o644)
 					rp.exit = 1
 				}
+			}
+		}
+		if rp.exit != 1 && rp.exit != 66 && foundMode[i] == "serial" && bytes.Contains(f.Replay, []byte(`"seeded_prefix"`)) {
+			// neither the minimised nor the original single run fails in a fresh process: the
+			// failure needs the history of its worker; replay that (the file carries the prefix)
+			os.WriteFile(v.replay, indentJSON(f.Replay), 0o644)
+			pp := &proc{name: "replay-prefix", bin: bin, timeout: 15 * time.Minute, args: []string{"-mode", "replay", "-file", v.replay, "-root", b.rootSerial}}
+			pp.run()
+			if pp.exit == 1 {
+				rp.exit = 1
 			}
 		}
 		switch rp.exit {
@@ -1041,7 +1065,7 @@ func doCheck(cfg tierCfg) int {
 				"first_call_chains_fresh_process_each": sweep.Strategies["first-call-sweep"]},
 			"bursts":                                    map[string]any{"bursts": burst.Runs, "operations": burst.Ops, "gomaxprocs": []int{2, 4, 8, 16}, "race_reports": len(raceReports)},
 			"aborted_runs":                              tot.Aborted,
-			"degraded_runs":                             0,
+			"degraded_determinism":                      degradedWhy,
 			"foreign_goroutine_yields":                  tot.Foreign,
 			"external_block_events":                     tot.Aborted["external block (no yield for 10 s of real time)"],
 			"infeasible_segments":                       tot.Infeasible,
@@ -1116,6 +1140,27 @@ func doCheck(cfg tierCfg) int {
 	}
 	fmt.Println("C18 held on everything explored")
 	return 0
+}
+
+// uncontrolledSources names what in the tree under test can make two executions of one seed
+// differ without the simulator being at fault.
+func uncontrolledSources(b *build) string {
+	var out []string
+	if m, _ := b.instr["uncontrolled_imports"].(map[string]any); len(m) > 0 {
+		var ks []string
+		for k := range m {
+			ks = append(ks, k)
+		}
+		sort.Strings(ks)
+		out = append(out, "package(s) "+strings.Join(ks, ", "))
+	}
+	if gs, _ := b.instr["go_statements"].([]any); len(gs) > 0 {
+		out = append(out, "goroutines started inside the library")
+	}
+	if l, _ := b.instr["sync_left_real"].([]any); len(l) > 0 {
+		out = append(out, "real sync primitives")
+	}
+	return strings.Join(out, "; ")
 }
 
 func syncStubNote(b *build) []string {
